@@ -4,7 +4,7 @@
    never raises after an effect), and its corollary in the form  gen_update_<class> .. = update (K<Kind> ..) .. .
    An edit of the source that changes what a method does changes the generated term, and these proofs stop checking. *)
 From Coq Require Import List ZArith Bool Arith Lia.
-From SZ Require Import Base.Values Sync.Nodes Base.MiniPy.
+From SZ Require Import Base.Values Sync.Nodes Base.MiniPy Base.BridgeTac.
 From SZ Require Sync.NodeSem2.
 From SZ Require Import Gen.KN_accumulate Gen.KN_map Gen.KN_filter Gen.KN_starmap Gen.KN_pluck Gen.KN_union Gen.KN_Stream.
 From SZ Require Import Gen.KN_flatten Gen.KN_partition Gen.KN_sliding_window Gen.KN_unique Gen.KN_collect Gen.KN_slice.
@@ -44,6 +44,28 @@ Proof.
 Qed.
 Ltac pyr := repeat (progress (py; rewrite ?bind_bind, ?bind_rd, ?bind_ret)).
 
+(* Execute, and split on whatever the generated method or the model still asks (innermost scrutinee first; a compound test
+   is split atom by atom), until both sides are the same value.  The script does not mention the order, the number or the
+   nesting of the generated steps.  [tac] is run after every execution step (rewrites with arithmetic facts). *)
+Ltac splittable d ::= lazymatch type of d with res _ _ => fail | _ => idtac end.   (* a run is executed, not split *)
+(* a test of MiniPy.v on a variable is decided by the shape of the variable *)
+Ltac var_or v d :=
+  match constr:(Set) with
+  | _ => let _ := match goal with _ => is_var v end in constr:(v)
+  | _ => constr:(d)
+  end.
+Ltac subject d ::=
+  lazymatch d with
+  | pick_is_list ?v => var_or v d | is_none ?v => var_or v d | is_none_fn ?v => var_or v d
+  | is_no_default ?v => var_or v d | truthy_md ?v => var_or v d | truthy_list ?v => var_or v d
+  | truthy_optmd ?v => var_or v d | truthy_optnat ?v => var_or v d | items ?v => var_or v d
+  | _ => d
+  end.
+Ltac crunch_with tac := repeat (repeat (progress (pyr; tac)); first [reflexivity | split_once]).
+Ltac crunch := crunch_with idtac.
+(* leaves that need arithmetic: a test spelled differently on the two sides leaves contradictory assumptions *)
+Ltac leaves := cbn [length] in *; arith_leaf.
+
 (* the literal form follows from the strong one *)
 Lemma weaken r o : r = of_option o -> to_option r = o.
 Proof. intros ->. apply to_of_option. Qed.
@@ -61,17 +83,13 @@ Proof. apply weaken, bridge_run_union. Qed.
 
 (* ---- map ----------------------------------------------------------------------------------------------------- *)
 Theorem bridge_run_map f s p x m : gen_run_map f s p x m = of_option (update (KMap f) s p x m).
-Proof.
-  unfold gen_run_map, gen_body_map. cbn [update]. destruct (f x); reflexivity.
-Qed.
+Proof. unfold gen_run_map, gen_body_map. cbn [update]. crunch. Qed.
 Theorem bridge_update_map f s p x m : gen_update_map f s p x m = update (KMap f) s p x m.
 Proof. apply weaken, bridge_run_map. Qed.
 
 (* ---- filter -------------------------------------------------------------------------------------------------- *)
 Theorem bridge_run_filter f s p x m : gen_run_filter f s p x m = of_option (update (KFilter f) s p x m).
-Proof.
-  unfold gen_run_filter, gen_body_filter. cbn [update]. destruct (f x) as [[|]|]; reflexivity.
-Qed.
+Proof. unfold gen_run_filter, gen_body_filter. cbn [update]. crunch. Qed.
 Theorem bridge_update_filter f s p x m : gen_update_filter f s p x m = update (KFilter f) s p x m.
 Proof. apply weaken, bridge_run_filter. Qed.
 
@@ -79,8 +97,7 @@ Proof. apply weaken, bridge_run_filter. Qed.
 Theorem bridge_run_starmap f s p x m : gen_run_starmap f [] s p x m = of_option (update (KStarmap f) s p x m).
 Proof.
   unfold gen_run_starmap, gen_body_starmap. cbn [update].
-  destruct x as [z|l|l|]; try reflexivity. cbn [tuple_add]. rewrite app_nil_r. cbn [lift star items bind ret].
-  destruct (f l); reflexivity.
+  crunch_with ltac:(cbn [tuple_add star items]; rewrite ?app_nil_r).
 Qed.
 Theorem bridge_update_starmap f s p x m : gen_update_starmap f [] s p x m = update (KStarmap f) s p x m.
 Proof. apply weaken, bridge_run_starmap. Qed.
@@ -91,9 +108,8 @@ Proof. induction l as [|a t IH]; cbn; [reflexivity|]. destruct (f a); [rewrite I
 
 Theorem bridge_run_pluck pk s p x m : gen_run_pluck pk s p x m = of_option (update (KPluck pk) s p x m).
 Proof.
-  unfold gen_run_pluck, gen_body_pluck. destruct pk as [i|l]; cbn [update pick_is_list pick_list pick_one].
-  - destruct (py_index x i); reflexivity.
-  - rewrite map_opt_all_some. destruct (all_some _); reflexivity.
+  unfold gen_run_pluck, gen_body_pluck. cbn [update].
+  crunch_with ltac:(cbn [pick_is_list pick_list pick_one]; rewrite ?map_opt_all_some).
 Qed.
 Theorem bridge_update_pluck pk s p x m : gen_update_pluck pk s p x m = update (KPluck pk) s p x m.
 Proof. apply weaken, bridge_run_pluck. Qed.
@@ -103,13 +119,8 @@ Theorem bridge_run_accumulate f start rs ws s p x m :
   gen_run_accumulate f rs ws s p x m = of_option (update (KAccum f start rs ws) s p x m).
 Proof.
   unfold gen_run_accumulate, gen_body_accumulate. cbn [update].
-  destruct s as [acc n det keyed win seen ports last]. py.
-  destruct acc as [a|]; py.
-  - destruct (f a x) as [r|]; py; [|reflexivity].
-    destruct rs; py.
-    + unfold unpack2. destruct (items r) as [[|st [|res [|? ?]]]|]; py; try reflexivity. destruct ws; reflexivity.
-    + destruct ws; reflexivity.
-  - destruct ws; reflexivity.
+  destruct s as [acc n det keyed win seen ports last].
+  crunch_with ltac:(unfold unpack2).
 Qed.
 Theorem bridge_update_accumulate f start rs ws s p x m :
   gen_update_accumulate f rs ws s p x m = update (KAccum f start rs ws) s p x m.
@@ -191,13 +202,10 @@ Proof.
   unfold sliding_window__buffer, sliding_window__buffer_append, sliding_window_metadata_buffer,
     sliding_window_metadata_buffer_append, sliding_window_metadata_buffer_popleft.
   destruct s as [acc cnt det keyed win seen ports last]. py.
-  rewrite last_lastn_snoc by exact Hn.
+  rewrite ?last_lastn_snoc by exact Hn.
   set (vals := lastn n (seen ++ [x])). set (w' := lastn n (win ++ [(x, m)])).
-  destruct (partial || (length vals =? n)); py; [|reflexivity].
-  rewrite map_length, flatten_md_map_snd.
-  destruct (length w' =? n) eqn:E; py; [|reflexivity].
-  destruct w' as [|[x0 hm] t]; py; [|reflexivity].
-  apply Nat.eqb_eq in E. cbn in E. lia.
+  crunch_with ltac:(rewrite ?map_length, ?flatten_md_map_snd).
+  all: leaves.
 Qed.
 Theorem bridge_update_sliding_window n partial s p x m : 1 <= n ->
   gen_update_sliding_window n partial s p x m = update (KSliding n partial) s p x m.
@@ -209,8 +217,8 @@ Theorem bridge_run_unique maxsize key s p x m :
 Proof.
   unfold gen_run_unique, gen_body_unique. cbn [update].
   unfold unique_seen_contains, unique_seen_remove, unique_seen_insert, unique_seen_delfrom.
-  destruct s as [acc cnt det keyed win seen ports last]. py.
-  destruct (mem_val (key x) seen); py; destruct maxsize as [[|k]|]; py; reflexivity.
+  destruct s as [acc cnt det keyed win seen ports last].
+  crunch.
 Qed.
 Theorem bridge_update_unique maxsize key s p x m :
   gen_update_unique maxsize key s p x m = update (KUnique maxsize key) s p x m.
@@ -255,12 +263,9 @@ Theorem bridge_run_slice star stop step s p x m : st_detached s = false ->
 Proof.
   intros Hd. unfold gen_run_slice, gen_body_slice. cbn [update].
   unfold slice_state, slice_state_set, slice_detach.
-  destruct s as [acc cnt det keyed win seen ports last]. cbn [st_detached] in Hd. subst det. py.
-  destruct stop as [e|]; cbn [is_none optnat_le negb andb].
-  - destruct (e <=? cnt) eqn:Hf; py; [reflexivity|].
-    destruct ((star <=? cnt) && ((cnt - star) mod step =? 0)); py; rewrite Nat.add_1_r;
-      destruct (e <=? S cnt); py; reflexivity.
-  - py. destruct ((star <=? cnt) && ((cnt - star) mod step =? 0)); py; rewrite Nat.add_1_r; reflexivity.
+  destruct s as [acc cnt det keyed win seen ports last]. cbn [st_detached] in Hd. subst det.
+  crunch_with ltac:(rewrite ?Nat.add_1_r; cbn [is_none optnat_le Nat.add]).
+  all: leaves.
 Qed.
 Theorem bridge_update_slice star stop step s p x m : st_detached s = false ->
   gen_update_slice star stop step s p x m = update (KSlice star stop step) s p x m.
